@@ -395,6 +395,24 @@ func registerSDK(p *Program) {
 	}
 	p.Intr["("+sdkTypes+".AccAddress).Bytes"] = func(x *Exec, c *CallCtx) Value { return c.Args[0] }
 	p.Intr["bytes.Equal"] = func(x *Exec, c *CallCtx) Value { return BoolV{x.bytesEq(c.Args[0], c.Args[1])} }
+	p.Intr["bytes.Compare"] = func(x *Exec, c *CallCtx) Value {
+		B := x.B
+		a, b := x.bytesToString(c.Args[0].(SliceV)).(StrV), x.bytesToString(c.Args[1].(SliceV)).(StrV)
+		if a.IsConst && b.IsConst {
+			switch {
+			case a.S < b.S:
+				return IntV{B.Int(-1)}
+			case a.S > b.S:
+				return IntV{B.Int(1)}
+			}
+			return IntV{B.Int(0)}
+		}
+		ta, tb := x.strAtomTerm(a), x.strAtomTerm(b)
+		if ta == nil || tb == nil {
+			x.Unsupported("bytes.Compare on content bytes")
+		}
+		return IntV{B.Ite(B.Eq(ta, tb), B.Int(0), B.Ite(x.strLess(ta, tb), B.Int(-1), B.Int(1)))}
+	}
 }
 
 // bech32Decode: ok(s) and addr(s); decode(encode(a)) = a is instantiated in bech32Encode.
